@@ -102,7 +102,7 @@ func (k *kflow) fieldKind(f *types.Var) kind {
 	if !k.c.P.IsModPkg(f.Pkg()) {
 		return kTop
 	}
-	if d := declKind(f.Name()); d != kBot {
+	if d := declKind(k.c.on(f)); d != kBot {
 		return d
 	}
 	return kTop
@@ -234,7 +234,7 @@ func (k *kflow) resultKind(call ssa.Value, idx int) kind {
 	}
 	// interface methods of the package: result kind by method name
 	if k.c.P.IsModPkg(cal.Func.Pkg()) {
-		if d := declKind(cal.Func.Name()); d != kBot && idx == 0 {
+		if d := declKind(k.c.on(cal.Func)); d != kBot && idx == 0 {
 			return d
 		}
 	}
